@@ -91,6 +91,13 @@ static void check(const Case &cc) {
         H3Error e2 = polygonToCellsExperimental(&lp.gp, res, bf, 4, dummy);
         CHECK(e1 == E_OPTION_INVALID, "flags", "maxPolygonToCellsSizeExperimental(flags %u) returned %u, expected E_OPTION_INVALID", bf, e1);
         CHECK(e2 == E_OPTION_INVALID, "flags", "polygonToCellsExperimental(flags %u) returned %u, expected E_OPTION_INVALID", bf, e2);
+        // the same for a polygon without vertices (the shortcut for empty polygons must not come before the validation; fixed finding C12)
+        GeoPolygon empty;
+        empty.geoloop.numVerts = 0; empty.geoloop.verts = nullptr; empty.numHoles = 0; empty.holes = nullptr;
+        n = -1;
+        e1 = maxPolygonToCellsSizeExperimental(&empty, res, bf, &n);
+        e2 = polygonToCellsExperimental(&empty, res, bf, 4, dummy);
+        CHECK(e1 == E_OPTION_INVALID && e2 == E_OPTION_INVALID, "flags", "invalid flags %u with an empty polygon: size function returned %u, fill returned %u, expected E_OPTION_INVALID from both", bf, e1, e2);
     }
     std::set<H3Index> S[4];
     for (uint32_t mode = 0; mode < 4; mode++) {
